@@ -31,7 +31,7 @@ func init() { core.Register(prop{}) }
 
 func (prop) ID() string        { return "C14" }
 func (prop) CoqModule() string { return "Gengo.Corr.C14" }
-func (prop) Parallel() int     { return 6 }
+func (prop) Parallel() int     { return 8 }
 
 type depsIn struct {
 	Stride int        `json:"stride,omitempty"`
@@ -586,6 +586,9 @@ func tagsOf(p *Prog, mode string) ([]string, bool) {
 	for _, c := range p.Calls {
 		if c.Entry == "selector" {
 			tags["resultsof_through_importer"] = true
+		}
+		if c.Entry == "other" {
+			tags["resultsof_through_importer_paren_call"] = true
 		}
 		if c.Entry == "sig" && p.Funcs[c.F].Iface {
 			tags["interface_method"] = true
